@@ -77,11 +77,12 @@ class KgenRun:
         return time.time() - t0
 
 
-def standard_check(prop, build, ok_real, describe, level_text, assumptions, jobs=6, timeout=None, fuzz_count=None, only=None):
+def standard_check(prop, build, ok_real, describe, level_text, assumptions, jobs=6, timeout=None, fuzz_count=None, only=None, pre=None):
     """build(crate) adds derive modules + harnesses.  ok_real(native verdict string) says whether a native
     verdict is acceptable for this property.  Returns the exit code."""
     t0 = time.time()
     out = vc.Outcome(prop)
+    engine_m = pre(out) if pre else None
     K = KgenRun(prop, only=only)
     build(K.crate)
     K.crate.write()
@@ -147,6 +148,7 @@ def standard_check(prop, build, ok_real, describe, level_text, assumptions, jobs
         skipped_operations=[dict(entry=e, op=op, kind=k, reason=w) for e, op, k, w in K.crate.skipped],
         kani=[r.to_json() for r in K.results.values()], solver_s=round(solver_s, 1), kani_wall_s=round(kani_s, 1), native_build_s=round(K.build_s, 1),
         native_differential=dict(runs_per_harness=fuzz_count, harnesses=len(native_names)),
+        engine_m=engine_m,
         exhaustive=False)
     vc.write_evidence(prop, 'model_checking', coverage, assumptions, time.time() - t0, violations=len(out.violations))
     return out.finish()
